@@ -16,7 +16,7 @@ E1 (sharded, exhaustive over stated finite spaces, reference = mc/ref_c09.py + r
   mesh       MeshPatt.unrank/rank/of_length: bijection, order, documented bit layout, rejection
 E2 (BFS over histories on the process-wide memo of Perm.to_standard and the shared objects it
     hands out, and over interleavings of generators / rank calls):
-  history    see StdHistory / RankHistory
+  history    see StdHistory / RankHistory / GenHistory
   fresh      a slice of the explored histories is re-run in a fresh interpreter and must give
              the same canonical state (adequacy of the cache reset, determinism)
 """
@@ -1335,6 +1335,172 @@ class RankHistory:
         return canon, viols
 
 
+class GenHistory:
+    """Several generators of the SAME entry points alive at once (first(k) with different k,
+    up_to_length, of_length; at most GMAX alive, the same kind may be started twice), stepped in
+    every interleaving up to the depth.  After EVERY history an epilogue is run, three times,
+    each time from a clean replay of the history (variants: read-back first + drain in creation
+    order; no first read-back + creation order; no first read-back + reverse order):
+      1. (variant 0 only) read-back  list(first(K)), list(of_length(3)), list(up_to_length(3)),
+         K = 12 beyond everything any generator of the menu touches;
+      2. every live generator is drained and must deliver exactly the rest of its reference
+         sequence;
+      3. read-back again with K2 = 34 (all of S<=4), i.e. further than anything read before, so
+         that damage appended behind an earlier read-back is seen as well.
+    So a prefix/cache that two live generators both extend shows up in a later complete call even
+    though each generator's own output was right.  No merging: state = history."""
+    KINDS = (("first", 2), ("first", 4), ("first", 7), ("up_to_length", 2), ("of_length", 3))
+    GMAX = 3
+    K = 12
+    K2 = 34
+    VARIANTS = ((True, False), (False, False), (False, True))   # (read-back first, reverse drain)
+
+    def __init__(self):
+        self.ref = RC.graded(4)
+        self.menu = ([("gstart", g) for g in range(len(self.KINDS))]
+                     + [("gstep", j) for j in range(self.GMAX)])
+        self.refs = []
+        for kind, arg in self.KINDS:
+            if kind == "of_length":
+                self.refs.append(list(RC.lex_perms(arg)))
+            elif kind == "up_to_length":
+                self.refs.append(RC.graded(arg))
+            else:
+                self.refs.append(self.ref[:arg])
+        self.readback = (("first", self.K, self.ref[:self.K]),
+                         ("of_length", 3, list(RC.lex_perms(3))),
+                         ("up_to_length", 3, RC.graded(3)))
+        self.readback2 = (("first", self.K2, self.ref[:self.K2]),
+                          ("of_length", 3, list(RC.lex_perms(3))),
+                          ("up_to_length", 3, RC.graded(3)))
+
+    def enabled(self, canon, hist):
+        gens = canon[0]
+        for op in self.menu:
+            if op[0] == "gstart" and len(gens) >= self.GMAX:
+                continue
+            if op[0] == "gstep" and (op[1] >= len(gens) or gens[op[1]][2]):
+                continue
+            yield op
+
+    def _readback(self, Perm, stage, calls):
+        for name, arg, ref in calls:
+            try:
+                got = list(getattr(Perm, name)(arg))
+            except Exception as exc:  # noqa
+                return {"epilogue": stage, "call": [name, arg], "exception": repr(exc)}
+            if len(got) != len(ref) or any(not is_perm_obj(Perm, g, r) for g, r in zip(got, ref)):
+                i = first_diff(got, ref)
+                return {"epilogue": stage, "call": [name, arg], "index": i, "len_got": len(got),
+                        "expected": ref[i] if i < len(ref) else None,
+                        "got": describe(got[i]) if i < len(got) else None}
+        return None
+
+    def _run(self, hist, variant):
+        Perm = _P()
+        reset_hidden()
+        gens = []   # [generator, kind index, consumed, exhausted]
+        v = None
+        for op in hist:
+            v = None
+            try:
+                if op[0] == "gstart":
+                    kind, arg = self.KINDS[op[1]]
+                    gens.append([getattr(Perm, kind)(arg), op[1], 0, False])
+                else:
+                    g = gens[op[1]]
+                    ref = self.refs[g[1]]
+                    try:
+                        got = next(g[0])
+                        if g[2] >= len(ref) or not is_perm_obj(Perm, got, ref[g[2]]):
+                            v = {"op": op, "got": describe(got),
+                                 "expected": ref[g[2]] if g[2] < len(ref) else "StopIteration"}
+                        g[2] += 1
+                    except StopIteration:
+                        if g[2] != len(ref):
+                            v = {"op": op, "expected": ref[g[2]], "got": "StopIteration"}
+                        g[3] = True
+            except Exception as exc:  # noqa
+                v = {"op": op, "exception": repr(exc)}
+        positions = tuple((g[1], g[2], g[3]) for g in gens)
+        pre, reverse = self.VARIANTS[variant]
+        if v is None and pre:
+            v = self._readback(Perm, "read-back before draining", self.readback)
+        if v is None:
+            order = list(range(len(gens)))
+            if reverse:
+                order.reverse()
+            for j in order:
+                g = gens[j]
+                if g[3]:
+                    continue
+                ref = self.refs[g[1]]
+                try:
+                    rest = list(g[0])
+                except Exception as exc:  # noqa
+                    v = {"epilogue": "drain generator %d" % j, "exception": repr(exc)}
+                    break
+                exp = ref[g[2]:]
+                if len(rest) != len(exp) or any(not is_perm_obj(Perm, a, b)
+                                                for a, b in zip(rest, exp)):
+                    v = {"epilogue": "drain generator %d" % j, "expected": exp,
+                         "got": [list(x) for x in rest]}
+                    break
+        if v is None:
+            v = self._readback(Perm, "read-back after draining", self.readback2)
+        if v is not None and "epilogue" in v:
+            v["epilogue_variant"] = {"read_back_first": pre,
+                                     "drain_order": "reverse" if reverse else "creation"}
+        return positions, v
+
+    def build(self, hist):
+        viols = []
+        positions = ()
+        for variant in range(len(self.VARIANTS)):
+            positions, v = self._run(hist, variant)
+            if v is not None:
+                viols.append(v)
+                break
+        reset_hidden()
+        return (positions, tuple(hist)), viols
+
+
+def gen_initials(model, nops):
+    """All enabled histories with exactly nops operations (no library call: positions are
+    tracked symbolically)."""
+    out = [()]
+    for _ in range(nops):
+        nxt = []
+        for h in out:
+            ngen = sum(1 for op in h if op[0] == "gstart")
+            for op in model.menu:
+                if op[0] == "gstart" and ngen >= model.GMAX:
+                    continue
+                if op[0] == "gstep" and op[1] >= ngen:
+                    continue
+                nxt.append(h + (op,))
+        out = nxt
+    return out
+
+
+def shard_history_gen(shard):
+    prefix, depth = shard
+    part = Part()
+    model = GenHistory()
+
+    def on_violation(hist, v):
+        part.violation("history_gen", {"model": "gen", "history": list(hist)}, v)
+    st = bfs([tuple(prefix)], model.menu, model.build, depth - len(prefix), on_violation,
+             enabled=model.enabled)
+    part.add(st.transitions + 1, st.transitions + 1)
+    part.bump("history_states", st.states)
+    part.bump("history_transitions", st.transitions)
+    if len(prefix) == 2 and prefix[0] == ("gstart", 1) and prefix[1] == ("gstart", 2):
+        part.sample({"sub": "history_gen", "kinds": [list(k) for k in model.KINDS],
+                     "history": st.sample_histories[-1] if st.sample_histories else []}, cap=1)
+    return part, (st.states, st.transitions + 1, st.depth_completed, [])
+
+
 def shard_history(shard):
     kind = shard[0]
     part = Part()
@@ -1593,6 +1759,11 @@ def run(ctx, only=None):
         rmodel = RankHistory()
         shards += [("rank", op, rdepth) for op in rmodel.menu if op[0] != "gstep"]
         res = ctx.pmap(shard_history, shards)
+        gdepth = 7 if quick else 8
+        gmodel = GenHistory()
+        gshards = [(h, 1) for h in gen_initials(gmodel, 1)]       # the one-operation histories
+        gshards += [(h, gdepth) for h in gen_initials(gmodel, 2)]
+        res += ctx.pmap(shard_history_gen, gshards)
         res = [r for r in res if r is not None]     # None: shard died inside the library
         ctx.states += sum(r[0] for r in res)
         ctx.transitions += sum(r[1] for r in res)
@@ -1602,7 +1773,14 @@ def run(ctx, only=None):
                     "initial_states": list(INITS), "depth": depth,
                     "menu_size": {f: len(StdHistory(f, "fresh").menu) for f in FAMILIES}},
             "rank": {"depth": rdepth, "menu_size": len(rmodel.menu), "live_generators": MAXG,
-                     "merging": "none (state = history)"}}
+                     "merging": "none (state = history)"},
+            "gen": {"depth": gdepth, "kinds": [list(k) for k in gmodel.KINDS],
+                    "live_generators": gmodel.GMAX, "merging": "none (state = history)",
+                    "epilogue": "after every history, in three clean replays: [read-back "
+                                "first(%d), of_length(3), up_to_length(3)]; drain all live "
+                                "generators (creation / creation / reverse order); read-back "
+                                "first(%d), of_length(3), up_to_length(3)"
+                                % (gmodel.K, gmodel.K2)}}
         ctx.section("history", states=ctx.states, transitions=ctx.transitions,
                     evaluations=ctx.evals - e0)
         if want("fresh"):
@@ -1747,11 +1925,14 @@ def replay_once(part, rec):
                              limit=case.get("limit"))
     elif sub == "mesh_reject":
         check_mesh_reject(part, tuple(case["perm"]), case["r"])
-    elif sub in ("history_std", "history_rank", "fresh"):
+    elif sub in ("history_std", "history_rank", "history_gen", "fresh"):
         hist = to_hist(case["history"])
         if case["model"] == "std":
             model = StdHistory(case["family"], case["init"])
             start = 2
+        elif case["model"] == "gen":
+            model = GenHistory()
+            start = 1
         else:
             model = RankHistory()
             start = 1
